@@ -240,6 +240,9 @@ func searchDynGas(r *hx.Rng, n int) (evals int) {
 func searchPrecompiles(g *gen, n int) (evals int) {
 	for i := 0; i < n; i++ {
 		addr := 1 + g.r.Intn(18)
+		if g.r.Chance(1, 4) {
+			addr = 5
+		}
 		in := g.precompileInput(addr)
 		p := rawPrecompiles[precompileAddr(addr)]
 		t0 := time.Now()
